@@ -35,6 +35,7 @@ Inductive reason :=
 | RTooManyIds      (* "failed to create ... signature data object" (more than 1024 identities) *)
 | RCheckError      (* CheckSignature returned an error (hash-tree-root or public-key recovery) *)
 | RInvalidSig      (* "... signature invalid" (recovered address differs) *)
+| RSigCount        (* "expected one signature per signer, got %d signatures for %d signers" *)
 (* ValidateDecryptionKeysBasic *)
 | RExtraType | RExtraNil | RSlotTooLarge | RTxpTooLarge | RNoKeys
 (* keyper ValidateMessage / access node *)
@@ -51,7 +52,7 @@ Definition reason_code (r : reason) : N :=
   | RExtraType => 9 | RExtraNil => 10 | RSlotTooLarge => 11 | RTxpTooLarge => 12 | RNoKeys => 13
   | RNoKeyperSet => 14 | RInstance => 15 | REonOverflow => 16 | RNoKeysCommon => 17
   | RTooManyKeys => 18 | RNoEonKey => 19 | RKeyDecode => 20 | RKeyInvalid => 21
-  | RKeysUnordered => 22
+  | RKeysUnordered => 22 | RSigCount => 23
   end%N.
 
 Definition verdict_eqb (a b : verdict) : bool :=
@@ -279,10 +280,12 @@ Section Ideal.
         end
     end.
 
-  (* the part shared by both ValidateDecryptionKeysSignatures, from the signer-count test on *)
+  (* the part shared by both ValidateDecryptionKeysSignatures, from the signer-count test on
+     (repaired code: /repo commits "fix: ... requires one signature per signer") *)
   Definition validate_sigs_common (fl : flavour) (ks : keyperset) (m : keysmsg)
              (signers : list N) (sigs : list sig) : verdict :=
     if negb (to_i32 (Z.of_nat (length signers)) =? ks_threshold ks)%Z then Reject RSignerCount
+    else if negb (length sigs =? length signers)%nat then Reject RSigCount
     else
       match validate_signer_indices signers (length (ks_keypers ks)) with
       | Accept =>
@@ -303,9 +306,39 @@ Section Ideal.
     | Gnosis => validate_sigs_common Gnosis ks m signers sigs
     | Service =>
         (* // Allow for empty signatures and signer indices
-           if len(extra.SignerIndices) == 0 || len(extra.Signature) == 0 { return Accept } *)
-        if ((length signers =? 0)%nat || (length sigs =? 0)%nat)%bool then Accept
+           if len(extra.SignerIndices) == 0 && len(extra.Signature) == 0 { return Accept }
+           (repaired code: /repo commit "fix: shutter service admits unsigned keys only when
+           signers and signatures are both empty") *)
+        if ((length signers =? 0)%nat && (length sigs =? 0)%nat)%bool then Accept
         else validate_sigs_common Service ks m signers sigs
+    end.
+
+  (* The same two functions as they were before the repairs (pinned tree 1c8846f): no test of
+     the number of signatures, and `||` in the service flavour's early return. Kept so that
+     the refutations stay checkable. *)
+  Definition legacy_validate_sigs_common (fl : flavour) (ks : keyperset) (m : keysmsg)
+             (signers : list N) (sigs : list sig) : verdict :=
+    if negb (to_i32 (Z.of_nat (length signers)) =? ks_threshold ks)%Z then Reject RSignerCount
+    else
+      match validate_signer_indices signers (length (ks_keypers ks)) with
+      | Accept =>
+          match get_subset (ks_keypers ks) signers with
+          | SubErr => Reject RSubset
+          | SubPanic => Panic
+          | SubOk addrs =>
+              if (1024 <? length (m_ids m))%nat then Reject RTooManyIds
+              else sig_loop (signed_tuple fl m) addrs sigs 0
+          end
+      | v => v
+      end.
+
+  Definition legacy_validate_sigs (fl : flavour) (ks : keyperset) (m : keysmsg)
+             (signers : list N) (sigs : list sig) : verdict :=
+    match fl with
+    | Gnosis => legacy_validate_sigs_common Gnosis ks m signers sigs
+    | Service =>
+        if ((length signers =? 0)%nat || (length sigs =? 0)%nat)%bool then Accept
+        else legacy_validate_sigs_common Service ks m signers sigs
     end.
 
   (* gnosis.DecryptionKeysHandler.ValidateMessage with the database lookup of the keyper set
@@ -351,5 +384,6 @@ Arguments SigStray {H}.
    is the tuple itself. *)
 Definition csig := sig tuple.
 Definition c_validate_sigs := validate_sigs tuple tuple_eqb (fun t => t).
+Definition c_legacy_validate_sigs := legacy_validate_sigs tuple tuple_eqb (fun t => t).
 Definition c_keyper_validate_gnosis := keyper_validate_gnosis tuple tuple_eqb (fun t => t).
 Definition c_an_validate := an_validate tuple tuple_eqb (fun t => t).
